@@ -8,9 +8,11 @@ b == 98
 Txt(s) == s
 Scheme == <<104, 116, 116, 112>>            \* "http"
 Host == <<104>>                              \* "h"
+RepQ == <<107, 61, 49, 38, 107, 61, 50>>          \* "k=1&k=2": a repeated key, to be carried over verbatim
+RepR == <<116, 61, 120, 38, 116, 61, 121>>        \* "t=x&t=y"
 BasePaths == {<<>>, <<SL>>, <<SL, a>>, <<SL, a, SL>>, <<SL, a, SL, b>>, <<SL, a, SL, b, SL>>, <<SL, a, SL, b, SL, 99>>, <<SL, a, SL, SL, b>>}
 Bases == {[scheme |-> <<Scheme>>, auth |-> <<Host>>, path |-> p, query |-> q, frag |-> f] :
-            p \in BasePaths, q \in {<<>>, << <<113>> >>}, f \in {<<>>, << <<102>> >>}}
+            p \in BasePaths, q \in {<<>>, << <<113>> >>, << RepQ >>}, f \in {<<>>, << <<102>> >>}}
 SegAlpha == {<<a>>, <<b>>, <<DOT>>, <<DOT, DOT>>, <<>>}
 RECURSIVE SegSeqs(_)
 SegSeqs(n) == IF n = 0 THEN {<<>>} ELSE LET s == SegSeqs(n - 1) IN s \cup {Append(x, g) : x \in {y \in s : Len(y) = n - 1}, g \in SegAlpha}
@@ -20,7 +22,7 @@ Join(ss) == IF ss = <<>> THEN <<>> ELSE IF Len(ss) = 1 THEN ss[1] ELSE ss[1] \o 
 RefPaths == {p \in {(IF lead THEN <<SL>> ELSE <<>>) \o Join(ss) \o (IF trail /\ ss # <<>> THEN <<SL>> ELSE <<>>) :
                        ss \in SegSeqs(SegLen), lead \in BOOLEAN, trail \in BOOLEAN} : ~StartsWith(p, <<SL, SL>>)}
 (* a relative-path reference whose first segment contains ":" would parse as a scheme: none generated *)
-QF == {<< <<>>, <<>> >>, << << <<121>> >>, <<>> >>, << <<>>, << <<115>> >> >>, << << <<121>> >>, << <<115>> >> >>,
+QF == {<< << RepR >>, <<>> >>, << <<>>, <<>> >>, << << <<121>> >>, <<>> >>, << <<>>, << <<115>> >> >>, << << <<121>> >>, << <<115>> >> >>,
        << << <<>> >>, <<>> >>, << <<>>, << <<>> >> >>}
 Refs == {[scheme |-> <<>>, auth |-> <<>>, path |-> p, query |-> qf[1], frag |-> qf[2]] : p \in RefPaths, qf \in QF}
     \cup {[scheme |-> << <<102, 116, 112>> >>, auth |-> << <<120>> >>, path |-> p, query |-> <<>>, frag |-> <<>>] : p \in {<<>>, <<SL, a, SL, DOT, DOT, SL, b>>}}
